@@ -59,6 +59,18 @@ def run(W, chk):
         "div:r" in m["pool_info.assets[*].amount"] and "div:l" in m["offer_asset.amount"] and not (allops & {"wrap", "sat", "max", "min"}) and "kernel:calculate_stableswap_y" not in allops
     chk.expect(ok, "ROUND-cp-swap", "gross return", "return = floor(ask * offer / (offer_pool + offer)) minus floor fees",
                "constant-product return computed as %s" % {k: sorted(v) for k, v in res.items()}, H.entry)
+    # the gross output (the amount every fee share is taken from) is a single floored quotient: a floored term that is
+    # *subtracted* (ask - floor(k / (x + dx))) rounds the output up; the subtracting form is accepted only with a round-up division
+    gross = [e for e in H.calls(r"fee::Fee::compute$") if len(e.extra.get("dargs", [])) > 1]
+    if not gross:
+        chk.skip("ROUND-cp-swap", "gross output", "no Fee::compute call on the constant-product arm (fees computed differently)")
+    for e in gross[:1]:
+        gm = opmap(e.extra["dargs"][1], lambda o, ops: not o.startswith("Const("))
+        gops = set().union(*gm.values()) if gm else set()
+        chk.expect("div_floor" in gops and not (gops & {"sat", "wrap", "min", "max"}) and ("sub" not in gops or "div_ceil" in gops) and
+                   "div:l" in gm.get("offer_asset.amount", ()) and "div:r" in gm.get("pool_info.assets[*].amount", ()), "ROUND-cp-swap", "gross output",
+                   "gross = floor(ask * offer / (offer_pool + offer)): the offer on the numerator, no floored term subtracted",
+                   "gross constant-product output computed as %s: a floored term is subtracted (the output is rounded up), or the offer left the numerator" % {k: sorted(v) for k, v in gm.items()}, where(e))
     for f in ("swap_fee_amount", "protocol_fee_amount", "burn_fee_amount", "extra_fees_amount"):
         fm = opmap(vfield(r, f), lambda o, ops: not o.startswith("Const("))
         ops = set().union(*fm.values()) if fm else set()
